@@ -82,6 +82,7 @@ def items(tier, seed):
     for first in range(len(sized_pool())):
         for opt in ("optimal", "greedy"):
             its.append({"entry": "sized", "first": first, "optimize": opt, "tier": tier})
+    its.append({"entry": "objopt", "tier": tier})
     return its
 
 
@@ -101,6 +102,75 @@ def sized_pool():
         dict(inputs=(("s", "r"), ("r", "q"), ("q", "p")), output=("s", "p"), size_dict=D),  # relabelled against the same dict
     ]
     return P
+
+
+class SwitchableOptimizer:
+    """a user optimizer object (public: optimize=callable) whose behaviour depends on a mutable
+    attribute; hashable by identity only"""
+
+    def __init__(self, which=0):
+        self.which = which
+
+    def __call__(self, inputs, output, size_dict, **kw):
+        n = len(inputs)
+        if self.which == 0:
+            return tuple((0, 1) for _ in range(n - 1))
+        return tuple((n - 2 - k, n - 1 - k) for k in range(n - 1))
+
+
+def run_objopt(item, rec):
+    """optimize= given as an OBJECT: the same live object mutated between calls, and fresh objects"""
+    import cotengra as ctg
+
+    I = importlib.import_module("cotengra.interface")
+    saved = I.__dict__.get("hash", None)
+    I.hash = structural
+    inputs = (("a", "b"), ("b", "c"), ("c", "d"), ("d", "e"))
+    output = ("a", "e")
+    size = {"a": 2, "b": 3, "c": 2, "d": 3, "e": 2}
+    sinputs = tuple("".join(t) for t in inputs)
+    try:
+
+        def harness(ctx):
+            clear_all()
+            live = SwitchableOptimizer(0)
+            seq = []
+            for k in range(3):
+                fresh = bool(symx.choose(f"fresh{k}", 2))
+                which = symx.choose(f"which{k}", 2)
+                cache = bool(symx.choose(f"cache{k}", 2))
+                ep = ["path", "expr", "einsum"][symx.choose(f"ep{k}", 3)]
+                seq.append([int(fresh), which, int(cache), ep])
+                if fresh:
+                    opt = SwitchableOptimizer(which)
+                else:
+                    live.which = which  # mutated in place between calls
+                    opt = live
+                want = opt(inputs, output, size)
+                case = dict(entry="objopt", seq=[list(x) for x in seq])
+                if ep == "path":
+                    got = ctg.array_contract_path(inputs, output, size_dict=dict(size), optimize=opt, cache=cache)
+                    bad = [tuple(p) for p in got] != [tuple(p) for p in want]
+                    rec.refute(ctx, bad, f"call {k}: path is the one THIS optimizer object returns now", lambda m, case=case: dict(case=case, call=k, signature=["C13o", str(seq)]))
+                else:
+                    arrays = symarr.sym_arrays(sinputs, size, prefix=f"c{k}x")
+                    if ep == "expr":
+                        val = ctg.array_contract_expression(inputs, output, size_dict=dict(size), optimize=opt, cache=cache)(*arrays)
+                    else:
+                        val = ctg.einsum(",".join(sinputs) + "->" + "".join(output), *arrays, optimize=opt, cache_expression=cache)
+                    bad = symarr.diff_formula(symarr.as_obj_array(val), symarr.dense_einsum(sinputs, "".join(output), size, arrays))
+                    rec.refute(ctx, bad, f"call {k}: value with an optimizer object", lambda m, case=case: dict(case=case, call=k, signature=["C13o", str(seq), "value"]))
+
+        out = symx.explore(harness, max_paths=30000, deadline_s=(60 if item["tier"] == "quick" else 600))
+        rec.add_explore(out)
+        rec.sample(dict(entry="optimize= optimizer OBJECT (live object mutated in place / fresh objects)", sequences=out.paths))
+    finally:
+        if saved is None:
+            I.__dict__.pop("hash", None)
+        else:
+            I.hash = saved
+        clear_all()
+    rec.validated += 1
 
 
 def run_sized(item, rec):
@@ -233,6 +303,8 @@ def run_item(item, rec):
     warnings.simplefilter("ignore")
     if item["entry"] == "sized":
         return run_sized(item, rec)
+    if item["entry"] == "objopt":
+        return run_objopt(item, rec)
     I = importlib.import_module("cotengra.interface")
     P = pool()
     ep, first, tier = item["entry"], item["first"], item["tier"]
@@ -334,6 +406,31 @@ def replay(v):
     """re-run the sequence on the real code (real hash), float arrays"""
     warnings.simplefilter("ignore")
     case = v["case"]
+    if case["entry"] == "objopt":
+        import cotengra as ctg
+
+        inputs = (("a", "b"), ("b", "c"), ("c", "d"), ("d", "e"))
+        output = ("a", "e")
+        size = {"a": 2, "b": 3, "c": 2, "d": 3, "e": 2}
+        clear_all()
+        live = SwitchableOptimizer(0)
+        for k, (fresh, which, cache, ep) in enumerate(case["seq"]):
+            if fresh:
+                opt = SwitchableOptimizer(which)
+            else:
+                live.which = which
+                opt = live
+            want = opt(inputs, output, size)
+            if ep == "path":
+                got = ctg.array_contract_path(inputs, output, size_dict=dict(size), optimize=opt, cache=bool(cache))
+                if [tuple(p) for p in got] != [tuple(p) for p in want]:
+                    return True, f"optimize=<optimizer object>, sequence {case['seq']}: call {k} returned {list(got)} but the object now produces {list(want)} (a cached answer of an earlier state of the object)"
+            elif ep == "expr":
+                ctg.array_contract_expression(inputs, output, size_dict=dict(size), optimize=opt, cache=bool(cache))
+            else:
+                arrs = [np.ones([size[c] for c in t]) for t in inputs]
+                ctg.einsum("ab,bc,cd,de->ae", *arrs, optimize=opt, cache_expression=bool(cache))
+        return False, "paths follow the object's current state"
     if case["entry"] == "sized":
         import cotengra as ctg
 
